@@ -81,11 +81,11 @@ def _arith(name, op_spec, cap_desc, cap_cond, extra=(), hint=""):
 
 MAXB = "(if bitlen(abs(self.val())) >= bitlen(abs(rhs.val())) { bitlen(abs(self.val())) } else { bitlen(abs(rhs.val())) })"
 checked_add = _arith("checked_add", "self.val() + rhs.val()", "", MAXB + " >= BIGINT_MAX_BITS - 1",
-                      hint="lemma_bitlen_sum(self.val(), rhs.val(), largest_bits as nat);")
+                      hint="lemma_bitlen_sum(self.val(), rhs.val(), %s as nat);" % MAXB)
 checked_sub = _arith("checked_sub", "self.val() - rhs.val()", "", MAXB + " >= BIGINT_MAX_BITS - 2",
-                      hint="lemma_bitlen_sum(self.val(), rhs.val(), largest_bits as nat);")
+                      hint="lemma_bitlen_sum(self.val(), rhs.val(), %s as nat);" % MAXB)
 checked_mul = _arith("checked_mul", "self.val() * rhs.val()", "", MAXB + " >= BIGINT_MAX_BITS / 2",
-                      hint="lemma_bitlen_mul(self.val(), rhs.val(), largest_bits as nat, largest_bits as nat);")
+                      hint="lemma_bitlen_mul(self.val(), rhs.val(), %s as nat, %s as nat);" % (MAXB, MAXB))
 
 checked_div = Fn(F, "checked_div", impl="BigInt", ret="res", props=["C05", "C03"],
                  ensures=LOUD + [
@@ -108,7 +108,7 @@ checked_shl = Fn(F, "checked_shl", impl="BigInt", ret="res", props=["C05", "C19"
                      C("err_only_beyond_cap", "res is Err ==> !(0 <= rhs.val() <= u32::MAX) || bitlen(abs(self.val())) + rhs.val() >= BIGINT_MAX_BITS", ["C05", "C19"]),
                      C("result_within_cap", "res is Ok ==> bitlen(abs(res->Ok_0.val())) <= BIGINT_MAX_BITS", ["C19"]),
                  ],
-                 closures={1: ("|rhs: usize| -> (r: BigInt) ensures r.bigint == num_bigint::mk(self.val() * pow2(rhs as nat)), r.size is None", ""),
+                 closures={1: ("|rhs: _| -> (r: BigInt) ensures r.bigint == num_bigint::mk(self.val() * pow2(rhs as nat)), r.size is None", ""),
                            2: ("|_e: num_bigint::TryFromBigIntError| -> (r: ())", "")},
                  rewrites=GENERIC_R3,
                  inserts=[Insert("        (&rhs.bigint)\n            .try_into()\n            .map(", "        proof { lemma_bitlen_shl(self.val(), rhs.val() as nat); }\n", where="before", why="lemma call (erased)")])
@@ -118,7 +118,7 @@ checked_shr = Fn(F, "checked_shr", impl="BigInt", ret="res", props=["C05", "C03"
                      C("floor", "res is Ok ==> rhs.val() >= 0 && res->Ok_0.val() == self.val() / (pow2(rhs.val() as nat) as int) && res->Ok_0.size is None", ["C05"]),
                      C("err_only_beyond_usize", "res is Err <==> !(0 <= rhs.val() <= usize::MAX)", ["C05", "C19"]),
                  ],
-                 closures={1: ("|rhs: usize| -> (r: num_bigint::BigInt) ensures r == num_bigint::mk(self.val() / (pow2(rhs as nat) as int))", ""),
+                 closures={1: ("|rhs: _| -> (r: num_bigint::BigInt) ensures r == num_bigint::mk(self.val() / (pow2(rhs as nat) as int))", ""),
                            2: ("|_e: num_bigint::TryFromBigIntError| -> (r: ())", "")},
                  rewrites=GENERIC_R3)
 
